@@ -93,6 +93,7 @@ struct Run {
   yaclib::Promise<int> pending[8];
   int pending_val[8];
   int n_pending = 0;
+  yaclib::SharedFuture<int> cache;  // a ready SharedFuture with one more holder than the pipeline
   yaclib::SharedPromise<int> spending[8];
   int spending_val[8];
   int n_spending = 0;
@@ -109,14 +110,14 @@ Run* g_run = nullptr;
 
 enum class Beh {
   val, thr, res_val, res_err, res_exc, fut_ready, fut_pending, fut_err, shared_ready, shared_pending, task_make, task_sched,
-  task_contract, task_sched_then
+  task_contract, task_sched_then, shared_cached_exc
 };
 
 Beh ParseBeh(const std::string& s) {
   static const char* names[] = {"val", "throw", "res_val", "res_err", "res_exc", "fut_ready", "fut_pending", "fut_err",
                                 "shared_ready", "shared_pending", "task_make", "task_sched", "task_contract",
-                                "task_sched_then"};
-  for (int i = 0; i != 14; ++i) {
+                                "task_sched_then", "shared_cached_exc"};
+  for (int i = 0; i != 15; ++i) {
     if (s == names[i]) {
       return static_cast<Beh>(i);
     }
@@ -136,7 +137,8 @@ int RetClass(Beh b) {  // 0 int, 1 Result, 2 Future, 3 SharedFuture, 4 Task
     case Beh::fut_pending:
     case Beh::fut_err: return 2;
     case Beh::shared_ready:
-    case Beh::shared_pending: return 3;
+    case Beh::shared_pending:
+    case Beh::shared_cached_exc: return 3;
     default: return 4;
   }
 }
@@ -168,6 +170,14 @@ auto Produce(Beh b, int n) {
     g_run->pending_val[g_run->n_pending++] = n + 4;
     return std::move(f);
   } else if constexpr (RC == 3) {
+    if (b == Beh::shared_cached_exc) {
+      if (!g_run->cache.Valid()) {
+        auto [cf, cp] = yaclib::MakeSharedContract<int>();
+        std::move(cp).Set(std::make_exception_ptr(TE{2}));
+        g_run->cache = std::move(cf);
+      }
+      return yaclib::SharedFuture<int>{g_run->cache};
+    }
     auto [f, p] = yaclib::MakeSharedContract<int>();
     if (b == Beh::shared_ready) {
       std::move(p).Set(n + 5);
@@ -360,6 +370,9 @@ std::string DescR(const Result<int>& r) {
     case yaclib::ResultState::Value: return "v" + std::to_string(std::as_const(r).Value());
     case yaclib::ResultState::Error: return "stop";
     case yaclib::ResultState::Exception:
+      if (!std::as_const(r).Exception()) {
+        return "exc:null";
+      }
       try {
         std::rethrow_exception(std::as_const(r).Exception());
       } catch (const TE& t) {
@@ -526,6 +539,11 @@ std::string RunProgram(const Program& p) {
       }
     }
   }
+  std::string cache = "-";
+  if (run.cache.Valid()) {
+    cache = DescR(std::as_const(run.cache).Get());
+    run.cache = {};
+  }
   auto stats1 = vrt::GetAllocStats();
   std::ostringstream os;
   os << "final=" << final << ";invoked=";
@@ -540,7 +558,7 @@ std::string RunProgram(const Program& p) {
      << ";drops=" << g_e1.drops << "," << g_e2.drops << ";allocs=" << (stats1.news - stats0.news)
      << ";build_allocs=" << build_news
      << ";leak=" << (static_cast<long>(stats1.news - stats0.news) - static_cast<long>(stats1.deletes - stats0.deletes))
-     << ";flive=" << Tracker::live;
+     << ";flive=" << Tracker::live << ";cache=" << cache;
   g_run = nullptr;
   return os.str();
 }
